@@ -230,6 +230,50 @@ def check_stopped(acc, m, e, n, unit):
     acc.outcomes[('stopped', len(vals) < len(full))] += 1
 
 
+def check_reexpressing_load(acc, m, e, n, unit):
+    """The user's load function re-expresses the `time` it receives IN PLACE (time.to(u, inplace=True): the same instant,
+    written in another unit), at the first instant only or at every instant; then a continuation.  The axis is still the
+    grid 0, dt, ..., T (seed C11-10: later instants were labelled with the unit of the aliased first instant)."""
+    dtF = dec(m, e)
+    dt, T = float(dtF), float(dtF * n)
+    for which in ('first-instant', 'every-instant'):
+        other = UNITS[(UNITS.index(unit) + 1 + (n + m + (which == 'every-instant')) % 3) % 4]
+        case = {'kind': 'reexpress', 'm': m, 'e': e, 'n': n, 'unit': unit, 'which': which, 'other': other}
+        mod = sim.Model(spec_for(SPEC, dt, unit))
+        good = mod.elements[-1].external_torque
+
+        def load(time, angular_position, angular_speed, good=good, mod=mod, which=which, other=other):
+            r = good(time=time, angular_position=angular_position, angular_speed=angular_speed)
+            if which == 'every-instant' or len(mod.pt.time) == 1:
+                time.to(other, inplace=True)
+            return r
+        mod.elements[-1].external_torque = load
+        try:
+            mod.run([dt, unit], [T, unit])
+        except Exception as ex:
+            acc.violation(f'C11/load-reexpresses-time/run-error/{type(ex).__name__}', 'run succeeds', case, {'exc': repr(ex)[:200]})
+            continue
+        acc.executions += 1
+        vals = [t.to(unit).value for t in mod.pt.time]
+        acc.transitions += len(vals)
+        r = judge(acc, case, vals, 0.0, dt, T, n, f'load-reexpresses-time/{which}', first=True)
+        acc.outcomes[('load-reexpresses-time', which, r)] += 1
+        if r != 'ok':
+            continue
+        n2 = 2 + (n + m) % 3
+        T2 = float(dtF * n2)
+        try:
+            mod.run([dt, unit], [T2, unit])
+        except Exception as ex:
+            acc.violation(f'C11/load-reexpresses-time/continuation/run-error/{type(ex).__name__}', 'continuation succeeds', case, {'exc': repr(ex)[:200]})
+            continue
+        acc.executions += 1
+        vals2 = [t.to(unit).value for t in mod.pt.time]
+        acc.transitions += len(vals2) - len(vals)
+        r2 = judge(acc, case, vals2[len(vals) - 1:], vals2[len(vals) - 1], dt, T2, n2, f'load-reexpresses-time/{which}/continuation', first=False)
+        acc.outcomes[('load-reexpresses-time/continuation', which, r2)] += 1
+
+
 def judge(acc, case, vals, start, dt, T, n, phase, first):
     """vals[0] is the start instant; then n further instants spaced dt, last == start + T."""
     got = len(vals) - 1
@@ -274,6 +318,8 @@ def run_shard(shard, tier):
                         acc.nstates += 1
                         check_aborted_first_instant(acc, m, e, n, unit)
                         acc.nstates += 1
+                        check_reexpressing_load(acc, m, e, n, unit)
+                        acc.nstates += 1
                     if rep == 'lit' and (n % 10 == 3 or tier != 'quick') and n <= 40:
                         for pwm in (0, 1, -1):
                             check_held(acc, m, e, n, unit, pwm)
@@ -296,6 +342,9 @@ def replay(case):
     if case.get('kind') == 'aborted':
         check_aborted_first_instant(acc, case['m'], case['e'], case['n'], case['unit'])
         return acc.violations
+    if case.get('kind') == 'reexpress':
+        check_reexpressing_load(acc, case['m'], case['e'], case['n'], case['unit'])
+        return [v for v in acc.violations if v['case'].get('which') == case.get('which')]
     if case.get('kind') == 'held':
         check_held(acc, case['m'], case['e'], case['n'], case['unit'], case['pwm'])
         return acc.violations
